@@ -89,9 +89,9 @@ func remoteFn(c vkit.Call) vkit.Reply {
 			// nothing to declare; the answer to a request with credentials may be stored if it says so (RFC 7234, section 3.2)
 			rep.Header["Cache-Control"] = "public, max-age=60"
 		} else if c.Method == "GET" && varyOnLines {
-			rep.Lines = http.Header{"Vary": {"Authorization", "X-Tenant, Cookie", "X-From-Output, X-Values, X-Static-0, X-Attrs", "X-Shift-A, X-Shift-Ab, X-Key-A, X-Key-Ab"}}
+			rep.Lines = http.Header{"Vary": {"Authorization", "X-Tenant, Cookie", "X-From-Output, X-Values, X-Static-0, X-Attrs", "X-Shift-A, X-Shift-Ab, X-Key-A, X-Key-Ab, X-Doc-Value"}}
 		} else if c.Method == "GET" {
-			rep.Header["Vary"] = "X-Tenant, Cookie, X-From-Output, X-Values, X-Static-0, X-Attrs, X-Shift-A, X-Shift-Ab, X-Key-A, X-Key-Ab"
+			rep.Header["Vary"] = "X-Tenant, Cookie, X-From-Output, X-Values, X-Static-0, X-Attrs, X-Shift-A, X-Shift-Ab, X-Key-A, X-Key-Ab, X-Doc-Value"
 		}
 	}
 
@@ -127,6 +127,10 @@ func remoteAnswer(c vkit.Call) vkit.Reply {
 
 		return vkit.Reply{Status: 200, Header: map[string]string{"Content-Type": "application/json", "X-Remote-Echo": echo}, Body: raw}
 	case strings.HasPrefix(c.Path, "/jwks"):
+		if tenant := c.Header.Get("X-Tenant"); tenant != "" {
+			return vkit.JSONReply(200, jwksOfTenant(tenant))
+		}
+
 		return vkit.JSONReply(200, jwksWithCertificate())
 	case strings.HasPrefix(c.Path, "/whoami-attrs"):
 		// the same subject id with attributes which differ in where nested elements end, or in the type of a value
@@ -560,7 +564,7 @@ func genSubjectHandlerCase(t *rapid.T, family string) caseSpec {
 	}
 
 	c.Kind = rapid.SampledFrom([]string{"equal", "equal", "subject", "value", "payload", "expressions", "shifted-values", "forwarded-header", "forwarded-cookie",
-		"shifted-names-payload", "forwarded-names", "shifted-endpoint", "subject-attributes", "shifted-url-authorization"}).Draw(t, "pairKind")
+		"shifted-names-payload", "forwarded-names", "shifted-endpoint", "subject-attributes", "shifted-url-authorization", "value-bytes"}).Draw(t, "pairKind")
 
 	if family == "generic_contextualizer" {
 		// headers and cookies are forwarded independently of each other; the component which differs is always forwarded
@@ -660,6 +664,20 @@ func genSubjectHandlerCase(t *rapid.T, family string) caseSpec {
 
 		c.Kind = "shifted"
 		c.Detail = "name list and payload shifted across their boundary"
+	case "value-bytes":
+		// a value rendered from the request (a header of it), which goes into a header of the endpoint and not into the payload;
+		// the two requests differ in one byte of it which is no valid UTF-8 (header values are bytes, RFC 9110, section 5.5)
+		if pc["values"] == nil {
+			pc["values"] = map[string]any{}
+		}
+
+		pc["values"].(map[string]any)["doc"] = `{{ .Request.Header "X-Doc" }}`
+		hdrs["X-Doc-Value"] = "{{ .Values.doc }}"
+		pair := rapid.SampledFrom([][2]string{{"report-\xfe", "report-\xff"}, {"\xc3\x28", "\xa0\xa1"}, {"r\xe9sum\xe9", "r\xe8sum\xe9"}}).Draw(t, "bytes")
+		hdrA = append(append([]vkit.HeaderKV{}, hdrA...), vkit.HeaderKV{Name: "X-Doc", Value: pair[0]})
+		hdrB = append(append([]vkit.HeaderKV{}, hdrB...), vkit.HeaderKV{Name: "X-Doc", Value: pair[1]})
+		c.Kind = "one-component"
+		c.Detail = "a value rendered from a request header, differing in a byte which is no valid UTF-8"
 	case "shifted-url-authorization":
 		// only the HTTP cache of the endpoint is in use (GET); the end of the url continued by the Authorization header of A
 		// reads like those of B
